@@ -18,10 +18,12 @@ is what `/repo` contains now.  All theorems are universal over the variant and o
 hypotheses are decidable classes of ASTs (`Model/Front/Wf.lean`, reported per case by the driver's
 `front class`), each one forced by a witness proved here (`*_counterexample`, `*_witness`):
 
-* `Clean fx f` — no rule without alternative (no text produces one), terminal names pairwise different
-  (N1), helper names unambiguous among the uses (F5 `sepClash`) and different from all rule and terminal
-  names (F5b `helperCapture`), no rule named `EMPTY`/`AUG`/`AUGL` (N3).
-  `clean_of_classes`: it follows from the driver's class predicates being false.
+* `Clean fx f` — no rule without alternative (no text produces one); helper names unambiguous among the uses (F5
+  `sepClash`); and, each only for variants that do not report it as a diagnostic: terminal names pairwise
+  different (N1, `dupNameErr`), helper names different from all rule and terminal names (F5b `helperCapture`,
+  `helperClashErr`), no rule named `EMPTY`/`AUG`/`AUGL` (N3, `reservedErr`).  For the repaired variants these
+  facts are derived from the checks a successful run has passed (`Clean.derived`).
+  `clean_of_classes`: it follows from the driver's class predicates being false; `C09_clean_of_repaired`.
 * `Regular fx f` — the part of `Clean` the index structure needs (`Clean.regular`).
 * `Safe fx f` — the classes of the panic witnesses (F9), `safe_of_classes`.
 
@@ -292,7 +294,8 @@ theorem C16_safe_of_classes (fx : Fixes) (f : File)
     (hg : (!fx.groupErr && f.allRefs.any SymRef.isGroup) = false)
     (hy : (!fx.greedyErr && f.allRefs.any SymRef.isGreedy) = false)
     (hm : (!fx.modifiersErr && f.allRefs.any SymRef.badModifiers) = false)
-    (h4 : (!fx.dupNameErr && f.dupTerminal) = false) (h5 : f.selfHelper fx = false) : Safe fx f :=
+    (h4 : (!fx.dupNameErr && f.dupTerminal) = false) (h5 : (!fx.helperClashErr && f.selfHelper fx) = false) :
+    Safe fx f :=
   safe_of_classes h0 h1 h2 h3 hg hy hm h4 h5
 
 /-- `S {99999999999}: Ta;` — `int_const`: `token.value.parse().unwrap()` -/
@@ -333,6 +336,41 @@ theorem C16_open_panics_3da879f :
     build Ex.v3da879f Ex.fMods = .err .notImplemented ∧
     build Ex.v3da879f Ex.fDupTerm5 = .err (.dupName (nm "Ta")) ∧ build Ex.v3da879f Ex.fF18 = .err .emptyMisuse := by
   decide
+
+/-- **N3 (code before C09-fix-8).**  `S: Ta; AUG: Tb;` — the alternatives of a rule named `AUG` are appended to
+the builder's own `AUG` (two productions); a diagnostic with `reservedErr`. -/
+theorem C09_counterexample_reserved_rule :
+    (match build {} Ex.fReserved with
+     | .ok g => g.nonterminals.map (fun n => (n.name, n.prods))
+     | _ => []) = [(nm "EMPTY", []), (nm "AUG", [0, 2]), (nm "S", [1])] ∧
+    build { reservedErr := true } Ex.fReserved = .err (.reserved (nm "AUG")) := by decide
+
+/-- **after C09-fix-8 and C09-fix-9** (`Ex.vFix9`): helper-name clashes are diagnostics in both declaration
+orders, for the rule that is its own helper (the former index panic) and for a terminal; the only front-end
+panic left is the integer conversion; legitimate sharing (`Ex.fF5`, `Ex.fGood`) still builds. -/
+theorem C16_open_panics_fix9 :
+    build Ex.vFix9 Ex.fBigInt = .panic .intConst ∧
+    build Ex.vFix9 Ex.fSelf = .err (.helperClash (nm "A1")) ∧ build Ex.vFix9 Ex.fSelf2 = .err (.helperClash (nm "A1")) ∧
+    build Ex.vFix9 Ex.fF5b = .err (.helperClash (nm "A1")) ∧ build Ex.vFix9 Ex.fF5bBefore = .err (.helperClash (nm "A1")) ∧
+    build Ex.vFix9 Ex.fTermCapture = .err (.helperClash (nm "Ta1")) ∧
+    build Ex.vFix9 Ex.fReserved = .err (.reserved (nm "AUG")) ∧
+    (match build Ex.vFix9 Ex.fF5 with | .ok g => g.prods.length | _ => 0) = 4 ∧
+    (match build Ex.vFix9 Ex.fGood with | .ok g => g.prods.length | _ => 0) = 13 := by decide
+
+/-- for a variant with `dupNameErr`, `helperClashErr` and `reservedErr` (as `/repo` after fix-8 and fix-9) `Clean` only
+asks for what no repair removes: helper names unambiguous among the uses (F5, `sepClash`) — and rules with
+alternatives, which every text has -/
+theorem C09_clean_of_repaired (fx : Fixes) (f : File) (h1 : fx.dupNameErr = true) (h2 : fx.helperClashErr = true)
+    (h3 : fx.reservedErr = true) (halts : ∀ r, r ∈ f.ruleList → r.alts ≠ []) (hsep : f.sepClash fx = false) :
+    Clean fx f :=
+  ⟨halts, Or.inl h1, uses_inj_of_sepClash hsep, Or.inl h2, Or.inl h3⟩
+
+/-- and `Safe` only asks for integer literals that fit `u32` (F9) -/
+theorem C16_safe_of_repaired (fx : Fixes) (f : File) (h1 : fx.dupNameErr = true) (h2 : fx.helperClashErr = true)
+    (h3 : fx.noRulesErr = true) (h4 : fx.groupErr = true) (h5 : fx.greedyErr = true) (h6 : fx.modifiersErr = true)
+    (hint : f.big u32Max = false) (hr0 : f.rules ≠ some []) (halts : ∀ r, r ∈ f.ruleList → r.alts ≠ []) :
+    Safe fx f :=
+  ⟨Or.inr hint, hr0, Or.inl h3, fun _ _ _ _ _ _ => ⟨Or.inl h4, Or.inl h5, Or.inl h6⟩, halts, Or.inl h1, Or.inl h2⟩
 
 /-! ## 9. Diagnostics added for the later stages of C16 (repo 15a0fce, 3da879f) -/
 
